@@ -1,5 +1,6 @@
 """Workload generators (DESIGN.md section 2.7): abstract tool paths, then encodings."""
 import math
+import re
 
 from .harness import depth_in, DEFAULT_EXT, DEFAULT_AT
 
@@ -127,6 +128,9 @@ class ProgGen(object):
 
     # ------------------------------------------------------------ helpers
     def emit(self, s):
+        if self.hostile and self.r.random() < 0.1:
+            # the code spelled with leading zeros, as CNC-style post-processors write it: G01, G00, G092, M0204
+            s = re.sub(r"^([GMgm])(\d+)", lambda m: m.group(1) + "0" * self.r.choice([1, 1, 2]) + m.group(2), s)
         if self.hostile and self.r.random() < 0.15:
             s = s.lower() if self.r.random() < 0.5 else s[0].lower() + s[1:]
         self.steps.append(["g", s])
